@@ -47,7 +47,7 @@ REGISTRY = {
     "C10": {"budget": {"quick": 45, "thorough": 900},
             "run": _pool("C10", "C10", RULE_POOL,
                          ["dependent_tasks_progressed", "thread_start_failure_fired", "idle_timeout_expired",
-                          "two_tasks_concurrent", "queue_full"])},
+                          "two_tasks_concurrent", "queue_full", "growth_demanded_after_start_failures"])},
     "C11": {"budget": {"quick": 45, "thorough": 900},
             "run": _pool("C11", "C11", RULE_POOL,
                          ["join_true", "join_false", "restart", "enqueue_overlapped_stop", "result_timeout"])},
@@ -173,7 +173,7 @@ def _c12():
             required_probes=["lifecycle_serve", "lifecycle_never-served", "lifecycle_shutdown-inflight", "lifecycle_handle-loop", "lifecycle_serve-twice", "lifecycle_close-while-serving",
                              "server_plain", "server_pooled", "server_pooled-user", "family_unix", "family_tcp",
                              "two_methods_executing_at_once", "shutdown_with_request_in_flight", "invalid_body_sent",
-                             "client_died_mid_body", "client_aborted_connection", "shared_request_and_notification_pool",
+                             "client_died_mid_body", "client_aborted_connection", "request_without_length", "shared_request_and_notification_pool",
                              "second_server_closed_while_first_serves", "abstract_unix_address", "server_of_other_family_alive"])
 
     return run
@@ -326,7 +326,7 @@ def _c17():
                          "framing, URL and scheme clauses are functions of the input; the simulator contributes the wire observation point, segmentation and the chunk knob"],
             real_components=REAL_CLI + ["jsonrpclib.SimpleJSONRPCServer do_POST / CGI handler - real code"], stub_components=STUB_CLI,
             required_probes=["mode_client", "mode_server", "mode_cgi", "mode_scheme", "backend_raw_utf8", "encoding_gzip", "encoding_gzip-multi",
-                             "encoding_chunked", "unbuffered_request_stream", "empty_request_body",
+                             "encoding_chunked", "unbuffered_request_stream", "empty_request_body", "cgi_body_read_in_pieces", "earlier_call_refused_while_building_headers",
                              "multibyte_response_beyond_first_read", "multibyte_request_with_small_read_chunk", "whitespace_only_read_block", "earlier_exchange_cut_mid_body", "query_string",
                              "percent_escape_in_path", "family_unix", "short_reads"])
 
